@@ -1152,7 +1152,13 @@ class FE:
     def emit_ins(s, b, ins):
         op = ins['op']; out = s.lines; em = s.em
         r = s.loc(ins['res']) if ins['res'] else None
-        if op in BINOPS:
+        if op == 'sub' and isinstance(ins['a'], VLocal) and isinstance(ins['b'], VLocal) and \
+                s.defs.get(ins['a'].name, {}).get('op') == 'ptrtoint' and s.defs.get(ins['b'].name, {}).get('op') == 'ptrtoint' and isinstance(s.res(ins['t']), TInt) and s.res(ins['t']).n == 64:
+            # ptrtoint(p) - ptrtoint(q): emitted as a pointer difference, which the model checker can fold when both point into the same object
+            da, db = s.defs[ins['a'].name], s.defs[ins['b'].name]
+            pa, pb = s.V(da['t'], da['v']), s.V(db['t'], db['v'])
+            out.append('%s = (%s != 0 && %s != 0) ? (uint64_t)((const uint8_t*)%s - (const uint8_t*)%s) : (uint64_t)((uint64_t)(uintptr_t)%s - (uint64_t)(uintptr_t)%s);' % (r, pa, pb, pa, pb, pa, pb))
+        elif op in BINOPS:
             rt = s.res(ins['t'])
             a = s.V(ins['t'], ins['a']); bb = s.V(ins['t'], ins['b'])
             if isinstance(rt, TVec):
@@ -1625,7 +1631,13 @@ class FE:
                     out.append('*(struct verif_B%d*)%s = (struct verif_B%d){{%s}};' % (lv.v, A[0], lv.v, ','.join([str(vv.v & 255)] * lv.v)))
             else:
                 k = s.tmp()
-                out.append('{ uint64_t n_%s = %s; uint8_t* d_%s = (uint8_t*)%s; uint8_t c_%s = %s; for (uint64_t i_ = 0; i_ < n_%s; ++i_) d_%s[i_] = c_%s; }' % (k, A[2], k, A[0], k, A[1], k, k, k))
+                et = s.elem_type_of(ins['args'][0][1]); esz = em.size_align(et)[0] if et is not None else 1
+                if et is not None and esz > 1 and isinstance(vv, VInt) and vv.v == 0 and isinstance(s.res(et), (TInt, TPtr, TStruct)):
+                    # zero-fill in units of the pointee type (one iteration per element instead of per byte)
+                    em.need_complete(et); ct = s.cty(et); z = '(%s)0' % ct if isinstance(s.res(et), (TInt, TPtr)) else '(%s){0}' % ct
+                    out.append('{ uint64_t n_%s = %s; %s* d_%s = (%s*)%s; if (n_%s %% %d != 0) verif_memset((uint8_t*)d_%s, 0, n_%s); else for (uint64_t i_ = 0; i_ < n_%s / %d; ++i_) d_%s[i_] = %s; }' % (k, A[2], ct, k, ct, A[0], k, esz, k, k, k, esz, k, z))
+                else:
+                    out.append('{ uint64_t n_%s = %s; uint8_t* d_%s = (uint8_t*)%s; uint8_t c_%s = %s; for (uint64_t i_ = 0; i_ < n_%s; ++i_) d_%s[i_] = c_%s; }' % (k, A[2], k, A[0], k, A[1], k, k, k))
             return False
         m_ = re.match(r'llvm\.(ctlz|cttz|ctpop|bswap|abs)\.i(\d+)$', n)
         if m_:
@@ -1911,6 +1923,13 @@ def emit_module(m, opts):
         if f.decl and ENV_NOOP.match(nm):
             # binary-only libstdc++ environment functions whose effect is irrelevant (exception object ctors/dtors: only the type is compared)
             bodies.append(sig + '\n{ %s }\n' % ('' if isinstance(f.ret, TVoid) else 'return (%s)0;' % em.cty(f.ret) if isinstance(em.res(f.ret), (TInt, TPtr, TFloat)) else 'return (%s){0};' % em.cty(f.ret)))
+        if not f.decl and opts.introsort_small and '__introsort_loop' in nm and len(f.params) >= 2 and isinstance(em.res(f.params[0][0]), TPtr):
+            # contract stub for libstdc++'s std::__introsort_loop(first, last, depth, cmp): for at most 16 elements its loop body is never entered,
+            # i.e. it is a no-op (the final insertion sort does the work); the precondition is asserted
+            esz = em.size_align(em.res(f.params[0][0]).to)[0]
+            bodies.append(sig + '\n{ if (v_%s != 0 && v_%s != 0) __CPROVER_assert((uint64_t)((const uint8_t*)v_%s - (const uint8_t*)v_%s) <= %dULL, "modelling bound: std::sort contract stub used with more than 16 elements"); }\n'
+                          % (san(f.params[1][1]), san(f.params[0][1]), san(f.params[1][1]), san(f.params[0][1]), 16 * esz))
+            continue
         if not f.decl and any(u in nm for u in opts.unreachable):
             bodies.append(sig + '\n{ __CPROVER_assert(0, "modelling bound: function assumed unreachable was reached: %s"); __CPROVER_assume(0); %s }\n' % (nm[:60], '' if isinstance(f.ret, TVoid) else ('return (%s)0;' % em.cty(f.ret) if isinstance(em.res(f.ret), (TInt, TPtr, TFloat)) else 'return (%s){0};' % em.cty(f.ret))))
             continue
@@ -1923,6 +1942,8 @@ def emit_module(m, opts):
             if fe.conc:
                 protos.append('static int S_%s(void);' % san(n))
                 bodies.append('static int S_%s(void)\n{\n' % san(n) + '\n'.join(body) + '\n}\n')
+                # the plain function only serves as an address (thread entry / indirect-call identity); gcc needs a definition to link
+                bodies.append('#ifdef VERIF_GCC\n' + sig + ' { abort(); }\n#endif\n')
             else:
                 bodies.append(sig + '\n{\n' + '\n'.join(body) + '\n}\n')
     # globals
@@ -1998,7 +2019,7 @@ def main():
     ap.add_argument('--gcc', action='store_true'); ap.add_argument('--conc', action='store_true'); ap.add_argument('--flex', action='store_true')
     ap.add_argument('--no-typed-malloc', action='store_true'); ap.add_argument('--alloc-cap', type=int, default=0)
     ap.add_argument('--unreachable', action='append', default=[])
-    ap.add_argument('--no-typed-memcpy', action='store_true'); ap.add_argument('--yield-atomics', action='store_true'); ap.add_argument('--no-yield', action='append', default=[])
+    ap.add_argument('--introsort-small', action='store_true'); ap.add_argument('--no-typed-memcpy', action='store_true'); ap.add_argument('--yield-atomics', action='store_true'); ap.add_argument('--no-yield', action='append', default=[])
     ap.add_argument('--dispatch', action='append'); ap.add_argument('--dispatch-threshold', type=int, default=8)
     o = ap.parse_args()
     text = open(o.input).read()
